@@ -43,6 +43,13 @@ CONTENT_SHAPES = [
     [("application/octet-stream", REF_ERR)],
     [("application/problem+json", REF_ERR), ("text/plain", {"type": "string"})],
     [("application/atom+xml", REF_PET), ("application/json", REF_PET)],
+    # bare strings / numbers under structured media types (they are JSON / XML documents, not raw text)
+    [("application/json", {"type": "string"})],
+    [("application/json", {"type": "string"}), ("text/plain", {"type": "string"})],
+    [("application/problem+json", {"type": "string"}), ("application/json", REF_ERR)],
+    [("application/json", {"type": "integer"})],
+    [("application/xml", {"type": "string"})],
+    [("text/plain", {"type": "string"}), ("text/event-stream", REF_PET)],
 ]
 
 
